@@ -642,9 +642,11 @@ def rule_reset(cx):
     # modular argument: persistent_writen stores nothing into *store, so values of store's
     # fields read after the first call ('clobbered' atoms) equal the fields themselves
     wps = cx.paths('persistent_writen', 'C10.f') or []
-    writes_store = [e for p in wps for e in p.stores() if sym.rooted_at(e.name, S)]
+    # (the fields that describe the regions and the medium; bookkeeping the instance may carry besides is not judged here)
+    writes_store = [e for p in wps for e in p.stores() if sym.rooted_at(e.name, S)
+                    and any(x in fmt(e.name) for x in ('->checksum.', '->data.', '->block.', '->buffer.data', '->buffer.size'))]
     if writes_store:
-        bad = 'persistent_writen modifies the storage object (%s)' % fmt(writes_store[0].name)
+        bad = 'persistent_writen modifies the description of the store (%s)' % fmt(writes_store[0].name)
     origin = cx.eng.clobber_origin
 
     _sc = globals()['strip_cast']
@@ -674,20 +676,92 @@ def rule_reset(cx):
         bad = 'data region never written'
     ck.verdict(bad is None, 'C10.f', 'persistent_reset', cx.where('persistent_reset'),
                'fills the checksum region then the data region with the fill octet, first failure returned' if bad is None else bad)
-    # writen fills scratch with item for bsize
+    # writen hands the medium scratch memory that holds the fill octet in every octet it writes from
     ps = cx.paths('persistent_writen', 'C10.f')
     if ps is not None:
         bad = None
+        witness = None
+        ITEM = ('v', 'item')
+        nw = 0
         for p in ps:
-            ms = p.calls('memset')
-            if len(ms) != 1 or ms[0].args[1] != ('v', 'item'):
-                bad = 'scratch not filled with the fill octet'
+            for e in [e for e in medium_calls(p) if e.name == 'block.write']:
+                nw += 1
+                a, ln, mem = addr_len(e)
+                ms = [m for m in p.calls('memset') if p.effects.index(m) < p.effects.index(e)]
+                if strip_cast(mem) == BUF_DATA:
+                    okm = [m for m in ms if strip_cast(m.args[0]) == BUF_DATA and strip_cast(m.args[1]) == ITEM]
+                    if okm:
+                        if strip_cast(okm[-1].args[2]) != BUF_SIZE:
+                            bad = bad or 'memset of %s octets into the auxiliary buffer of buffer.size' % fmt(okm[-1].args[2])
+                        continue
+                    # not filled on this path: only under a condition that says the buffer holds the pattern already
+                    w = [c for c in p.cond_terms() if c[0] == 'cmp' and c[1] == '==' and strip_cast(c[3]) == ITEM and sym.rooted_at(strip_cast(c[2]), S)] + \
+                        [c for c in p.cond_terms() if c[0] == 'cmp' and c[1] == '==' and strip_cast(c[2]) == ITEM and sym.rooted_at(strip_cast(c[3]), S)]
+                    if not w:
+                        bad = bad or 'the auxiliary buffer is written to the medium without having been filled with the fill octet on this path'
+                    else:
+                        witness = strip_cast(w[0][2]) if sym.rooted_at(strip_cast(w[0][2]), S) else strip_cast(w[0][3])
+                elif mem[0] == '&':
+                    okm = [m for m in ms if m.args[0] == mem and strip_cast(m.args[1]) == ITEM]
+                    if okm and okm[-1].args[2] != C(1):
+                        bad = bad or 'memset of %s octets into a one-octet scratch' % fmt(okm[-1].args[2])
+                    val = strip_cast(sym.mem_read(p.mem, mem[1]))
+                    if not okm and val != ITEM:
+                        bad = bad or 'the one-octet scratch holds %s, not the fill octet, when it is written' % fmt(val)
+                else:
+                    bad = bad or 'scratch memory %s not recognised' % fmt(mem)
+        if nw == 0:
+            bad = bad or 'no medium write found'
+        if witness is not None and bad is None:
+            bad = witness_coherence(cx, witness)
+        ck.verdict(bad is None, 'C10.f', 'persistent_writen:fill', cx.where('persistent_writen'),
+                   ('scratch filled with the fill octet within its capacity' + ('; the record %s of what the auxiliary buffer holds is kept true by everything that writes the buffer' % fmt(witness) if witness else ''))
+                   if bad is None else bad)
+
+
+def witness_coherence(cx, W):
+    """The instance field W is taken as evidence that the auxiliary buffer already holds the fill pattern (the fill is
+    skipped when W == item).  That is sound exactly if W tells the truth whenever it is read: (a) W is given a value v
+    that can be an octet only together with memset(buffer, v, size) on the same path; (b) every other function that lets
+    something write into the buffer's memory (a medium read into it, a copy) or that assigns a new buffer leaves W at a
+    value no octet can have (negative).  Checked over every function of the unit."""
+    u = cx.u
+    for fn, fd in sorted(u.functions.items()):
+        if not (cast.node_file(fd) or '').endswith('persistent-storage.c'):
+            continue
+        ps = cx.paths(fn, 'C10.f')
+        if ps is None:
+            continue
+        for p in ps:
+            if p.end not in ('return', 'end'):
                 continue
-            if ms[0].args[0] == BUF_DATA and strip_cast(ms[0].args[2]) != BUF_SIZE:
-                bad = 'memset of %s octets into the auxiliary buffer of buffer.size' % fmt(ms[0].args[2])
-            if ms[0].args[0][0] == '&' and ms[0].args[2] != C(1):
-                bad = 'memset of %s octets into a one-octet scratch' % fmt(ms[0].args[2])
-        ck.verdict(bad is None, 'C10.f', 'persistent_writen:fill', cx.where('persistent_writen'), 'scratch filled with the fill octet within its capacity' if bad is None else bad)
+            # what was the last thing written into the buffer's memory on this path, and what does W say at the end
+            last = None
+            for e in p.effects:
+                if e.kind == 'icall' and e.name == 'block.read' and strip_cast(e.args[0]) == BUF_DATA:
+                    last = ('data', e)
+                elif e.kind == 'call' and e.name in ('memcpy', 'memmove') and strip_cast(e.args[0]) == BUF_DATA:
+                    last = ('data', e)
+                elif e.kind == 'store' and e.name == BUF_DATA:
+                    last = ('newbuf', e)
+                elif e.kind == 'call' and e.name == 'memset' and strip_cast(e.args[0]) == BUF_DATA:
+                    last = ('fill', e)
+            wstores = [e for e in p.effects if e.kind == 'store' and e.name == W]
+            wfinal = strip_cast(sym.mem_read(p.mem, W))
+            neg = sym.is_c(wfinal) and wfinal[1] < 0
+
+            def same(v, item):
+                v, item = strip_cast(v), strip_cast(item)
+                return v == item
+            if last is not None and last[0] in ('data', 'newbuf') and not neg:
+                return ('%s lets the auxiliary buffer be overwritten (%s) and returns with %s = %s: a later persistent_reset with the remembered value skips the fill '
+                        'and writes what the buffer then holds - stale image octets - over the region, reporting success'
+                        % (fn, last[1].where(), fmt(W), 'unchanged' if wfinal == W else fmt(wfinal)))
+            if wstores and not neg and wfinal != W:
+                if last is None or last[0] != 'fill' or not same(last[1].args[1], wfinal):
+                    return ('%s sets %s = %s at %s without the auxiliary buffer having been filled with that value last on the same path: the record claims a pattern '
+                            'the buffer does not hold' % (fn, fmt(W), fmt(wfinal), wstores[-1].where()))
+    return None
 
 
 def rule_io(cx):
@@ -874,12 +948,26 @@ def rule_order(cx):
                'data write (confirmed complete) precedes checksum computation and the checksum write, which is last and whose status is returned' if bad is None else bad)
     # partial stores recompute from the medium, full stores may use the source image
     bad = None
+    unread = None
     for p in ps:
         names = [e.name for e in p.calls()]
         full = any(c == ('cmp', '==', ('v', 'offset'), C(0)) for c in p.cond_terms()) and \
             any(c[0] == 'cmp' and c[1] == '==' and {c[2], c[3]} == {('v', 'n'), DATA_SIZE} for c in p.cond_terms())
         if 'persistent_checksum' in names and not full:
-            bad = 'one-shot checksum of the source image used for a partial store'
+            # what does the one-shot function see as the image size at that moment?  The instance's own data.size: the call
+            # checksums data.size octets of a source that holds n - wrong (and an over-read) for a partial store.  A window
+            # the path has narrowed before the call (the checksum assembled from segments: medium, source, medium) is a
+            # form this rule does not follow segment by segment: it says so instead of judging it.
+            ci = [i for i, e in enumerate(p.effects) if e.kind == 'call' and e.name == 'persistent_checksum'][0]
+            win = [e for e in p.effects[:ci] if e.kind == 'store' and e.name == DATA_SIZE]
+            if not win:
+                bad = 'one-shot checksum of the source image used for a partial store'
+            else:
+                unread = unread or ('the checksum of a partial store is assembled from segments through a narrowed data window (%s = %s at %s): '
+                                    'the rule does not follow the segments' % (fmt(DATA_SIZE), fmt(win[-1].args[0]), win[-1].where()))
+    if bad is None and unread:
+        ck.broken('C11.b', 'persistent_store_part:partial', cx.where('persistent_store_part'), unread)
+        return
     ck.verdict(bad is None, 'C11.b', 'persistent_store_part:partial', cx.where('persistent_store_part'),
                'the source image is checksummed directly only when it is the whole data image; partial stores recompute from the medium' if bad is None else bad)
 
